@@ -35,6 +35,7 @@ import (
 // C15 — no request can crash a node.
 
 type c15env struct {
+	tail []*protobufcompiled.Vertex // vertices a malicious peer keeps streaming after the shaped one
 	w     *core.WorkerCtx
 	rig   *svc.Rig
 	rng   *rand.Rand
@@ -1107,14 +1108,34 @@ func c15Worker(w *core.WorkerCtx) {
 
 // c15Sync: the joining node's DAG sync against an in-memory malicious peer that streams shaped vertices.
 func c15Sync(e *c15env, vm []vrxMut) {
+	// vertices that are well formed on the wire and refused by the loader (a seal that does not verify, the genesis a
+	// second time, a transaction that moves nothing), each followed by three thousand more vertices sent back to back, several times over
+	refused := []vrxMut{
+		{"refused-by-loader/sealing-signature-altered", func(v *protobufcompiled.Vertex) { v.Signature[3] ^= 0x20 }},
+		{"refused-by-loader/hash-altered", func(v *protobufcompiled.Vertex) { v.Hash[9] ^= 0x02 }},
+		{"refused-by-loader/weight-altered", func(v *protobufcompiled.Vertex) { v.Weight += 7 }},
+		{"refused-by-loader/issuer-signature-altered", func(v *protobufcompiled.Vertex) { v.Transaction.IssuerSignature[5] ^= 0x01 }},
+	}
+	var all []vrxMut
+	var more []int
 	for i, m := range vm {
 		if !e.w.Thorough() && i%3 != 0 {
 			continue
 		}
+		all = append(all, m)
+		more = append(more, (i%4)*5)
+	}
+	for rep := 0; rep < e.w.Pick(4, 12); rep++ {
+		for _, m := range refused {
+			all = append(all, m)
+			more = append(more, 3000)
+		}
+	}
+	for i, m := range all {
 		m := m
 		lis := bufconn.Listen(1 << 20)
 		srv := grpc.NewServer()
-		protobufcompiled.RegisterGossipAPIServer(srv, &maliciousPeer{e: e, m: m})
+		protobufcompiled.RegisterGossipAPIServer(srv, &maliciousPeer{e: e, m: m, more: more[i]})
 		go srv.Serve(lis)
 		a := ledger.NewActor("joiner")
 		ctx, cancel := context.WithCancel(context.Background())
@@ -1161,8 +1182,9 @@ func c15Sync(e *c15env, vm []vrxMut) {
 
 type maliciousPeer struct {
 	protobufcompiled.UnimplementedGossipAPIServer
-	e *c15env
-	m vrxMut
+	e    *c15env
+	m    vrxMut
+	more int
 }
 
 func (p *maliciousPeer) LoadDag(_ *emptypb.Empty, stream protobufcompiled.GossipAPI_LoadDagServer) error {
@@ -1171,6 +1193,17 @@ func (p *maliciousPeer) LoadDag(_ *emptypb.Empty, stream protobufcompiled.Gossip
 	v := p.e.freshVertex(false)
 	p.m.apply(v)
 	stream.Send(v)
+	// the stream goes on after the shaped vertex: whatever the loader made of it, the client is still receiving
+	for i := 0; i < p.more; i++ {
+		if len(p.e.tail) == 0 {
+			for k := 0; k < 64; k++ {
+				p.e.tail = append(p.e.tail, p.e.freshVertex(false))
+			}
+		}
+		if stream.Send(p.e.tail[i%len(p.e.tail)]) != nil {
+			break
+		}
+	}
 	return nil
 }
 
